@@ -5,6 +5,7 @@
 #include "ref_enc.h"
 #include DRV
 #include "codec.h"
+#include "exact_buf.h"
 #include <constraints.h>
 #ifndef NBYTES
 #define NBYTES 5
@@ -14,12 +15,17 @@ struct inputs { uint8_t buf[NBYTES]; uint8_t size; int8_t alloc_fail_at; };
 #ifdef ALLOC_FAIL
 extern int verif_alloc_fail_at, verif_alloc_count;
 #endif
+#ifdef HEAP_BOUND
+extern size_t verif_alloc_max_request, verif_alloc_total;
+#endif
 void harness(void) {
     VERIF_INPUTS();
     ASSUME(in.size <= NBYTES);
-    uint8_t *data = (uint8_t *)malloc(in.size);
-    ASSUME(data != 0);
-    for(size_t i = 0; i < NBYTES; i++) if(i < in.size) data[i] = in.buf[i];
+#ifdef FIXED_INPUT
+    uint8_t *data = in.buf;
+#else
+    uint8_t *data = exact_copy(in.buf, in.size);     /* exact-size object: over-reads are bounds violations */
+#endif
 #ifdef ALLOC_FAIL
     ASSUME(in.alloc_fail_at >= -1 && in.alloc_fail_at <= 8);
     verif_alloc_fail_at = in.alloc_fail_at; verif_alloc_count = 0;
@@ -31,7 +37,14 @@ void harness(void) {
 #ifdef ALLOC_FAIL
     verif_alloc_fail_at = -1;
 #endif
+#ifdef HEAP_BOUND
+    /* C15 (heap clause): what the decoder asked the allocator for is bounded by the input it was given,
+     * whatever lengths/counts the input bytes claim */
+    CHECK(verif_alloc_max_request <= (size_t)(HEAP_A) * in.size + (HEAP_B), "largest single allocation request <= A*size + B");
+    CHECK(verif_alloc_total <= (size_t)(HEAP_TA) * in.size + (HEAP_TB), "total allocation requests <= TA*size + TB");
+#endif
     if(v) {
+#ifdef POSTOPS
         if(dr.code == RC_OK) {
             int cr = asn_check_constraints(&TYPE_DEF, v, 0, 0);
             CHECK(cr == 0 || cr == -1, "validation terminates with 0 or -1");
@@ -39,8 +52,11 @@ void harness(void) {
             asn_enc_rval_t er = der_encode(&TYPE_DEF, v, sink_cb, &s);
             CHECK(er.encoded == -1 || (size_t)er.encoded == s.len, "re-encoding accounts for its bytes");
         }
+#endif
         ASN_STRUCT_FREE(TYPE_DEF, v);
     }
+#ifndef FIXED_INPUT
     free(data);
+#endif
     WITNESS();
 }
